@@ -69,6 +69,46 @@ pub fn exec_op(ctx: &C19Ctx, verb: &str, m: &BTreeMap<String, String>) -> String
         "array_open" => probe_run(|| match Array::open(s.clone(), &path) { Ok(_) => true, Err(e) => { if std::env::var("VERIF_ERR_MSG").is_ok() { eprintln!("ERR: {}", e); } false } }),
         "array_metadata_opt" => { let a = match open() { Some(a) => a, None => return "skip".into() }; probe_run(move || { let _ = a.metadata_opt(&ArrayMetadataOptions::default()); true }) }
         "array_store_metadata" => { let a = match open() { Some(a) => a, None => return "skip".into() }; probe_run(move || a.store_metadata().is_ok()) }
+        // every combination of the documented conversion options (metadata version, alias names, `_zarrs`, codec options)
+        "array_metadata_variants" => {
+            let a = match open() { Some(a) => a, None => return "skip".into() };
+            probe_run(move || {
+                let mut ok = true;
+                for cv in [zarrs::config::MetadataConvertVersion::Default, zarrs::config::MetadataConvertVersion::V3] {
+                    for alias in [false, true] { for zm in [false, true] {
+                        let mut o = ArrayMetadataOptions::default().with_metadata_convert_version(cv).with_include_zarrs_metadata(zm);
+                        o.set_convert_aliased_extension_names(alias);
+                        let _ = a.metadata_opt(&o);
+                        ok &= a.store_metadata_opt(&o).is_ok();
+                    } }
+                }
+                ok
+            })
+        }
+        "array_read_variants" => {
+            use zarrs::array::{ArrayChunkCacheExt, ArrayShardedExt, ArrayShardedReadableExt, ArrayShardedReadableExtCache, ChunkCacheDecodedLruChunkLimit, ChunkCacheEncodedLruSizeLimit};
+            let a = match open() { Some(a) => a, None => return "skip".into() };
+            probe_run(move || {
+                let o = CodecOptions::default();
+                let c0: Vec<u64> = vec![0; a.dimensionality()];
+                let all = a.subset_all();
+                let one = zarrs::array_subset::ArraySubset::new_with_shape(vec![1; a.dimensionality()]);
+                let dc = ChunkCacheDecodedLruChunkLimit::new(2);
+                let ec = ChunkCacheEncodedLruSizeLimit::new(1 << 16);
+                let _ = a.retrieve_array_subset_opt_cached(&dc, &all, &o);
+                let _ = a.retrieve_chunk_opt_cached(&ec, &c0, &o);
+                let _ = a.retrieve_chunk_subset_opt_cached(&dc, &c0, &one, &o);
+                let sc = ArrayShardedReadableExtCache::new(&a);
+                let _ = a.is_sharded(); let _ = a.effective_inner_chunk_shape(); let _ = a.inner_chunk_grid_shape();
+                let _ = a.retrieve_array_subset_sharded_opt(&sc, &all, &o);
+                let _ = a.retrieve_inner_chunk_opt(&sc, &c0, &o);
+                let _ = a.retrieve_chunks(&zarrs::array_subset::ArraySubset::new_with_shape(vec![1; a.dimensionality()]));
+                let _ = a.retrieve_chunk_if_exists(&c0);
+                let _ = a.retrieve_encoded_chunk(&c0);
+                let _ = a.chunk_key(&c0);
+                true
+            })
+        }
         "array_builder" => { let a = match open() { Some(a) => a, None => return "skip".into() }; let s2 = s.clone(); probe_run(move || a.builder().build(s2, "/rebuilt").is_ok()) }
         "array_to_v3" => { let a = match open() { Some(a) => a, None => return "skip".into() }; probe_run(move || a.to_v3().is_ok()) }
         "codec_chain_from_metadata" => {
@@ -110,6 +150,16 @@ pub fn exec_op(ctx: &C19Ctx, verb: &str, m: &BTreeMap<String, String>) -> String
                 let a = g.store_metadata().is_ok();
                 let b = Group::open(s2.clone(), "/grp").is_ok();
                 let _ = g.metadata_opt(&GroupMetadataOptions::default());
+                for cv in [zarrs::config::MetadataConvertVersion::Default, zarrs::config::MetadataConvertVersion::V3] {
+                    let mut go = GroupMetadataOptions::default(); go.set_metadata_convert_version(cv);
+                    let _ = g.metadata_opt(&go); let _ = g.store_metadata_opt(&go);
+                }
+                // a Zarr V2 group converted on the way out
+                let _ = s2.set(&StoreKey::new("g2/.zgroup").unwrap(), br#"{"zarr_format":2}"#.to_vec().into());
+                if let Ok(g2) = Group::open(s2.clone(), "/g2") {
+                    let mut go = GroupMetadataOptions::default(); go.set_metadata_convert_version(zarrs::config::MetadataConvertVersion::V3);
+                    let _ = g2.metadata_opt(&go); let _ = g2.store_metadata_opt(&go); let _ = g2.to_v3();
+                }
                 let c = Node::open(&s2, "/").is_ok();
                 let _ = g.children(true);
                 let d = g.erase_metadata().is_ok();
@@ -126,7 +176,7 @@ pub fn generate(tier: &str, seed: u64) -> Vec<String> {
     let ncfg = if thorough { 1200 } else { 150 };
     let mut out = vec![];
     let ops = ["array_open", "array_metadata_opt", "array_store_metadata", "array_builder", "array_to_v3", "codec_chain_from_metadata",
-               "options_default", "group_ops"];
+               "options_default", "group_ops", "array_read_variants", "array_metadata_variants"];
     // hand-written documents: V2 metadata, fixedscaleoffset, nested sharding
     for (name, doc) in V2_DOCS.iter() {
         out.push(format!("c19 cfg name={} path=/a v2=1 es={} meta={}", name, if name.contains("zlib") { 4 } else { 8 }, hex(doc.as_bytes())));
